@@ -143,7 +143,8 @@ static std::string run(const std::vector<std::string> &t) {
             std::vector<Elem> src;
             src.reserve(t.size());
             for (size_t i = 3; i < t.size(); ++i) src.emplace_back(Elem(num(i)));
-            slot(1) = new Arr(src.data(), (size_t) num(2));     // copy = true
+            // an empty source is passed as a null pointer (what `Array<T>(nullptr, 0)` does)
+            slot(1) = new Arr(src.empty() ? nullptr : src.data(), (size_t) num(2));     // copy = true
         }
         return finish("ok");
     }
